@@ -76,6 +76,22 @@ static std::string op(const Toks& t) {
     if (fam == "gamma" || fam == "chisq") { if (lo < 0) lo = 0; }
     return q + " " + E("p" + fam, qv, a, b) + " " + E("p" + fam, lo, a, b) + " " + E("p" + fam, hi, a, b);
   }
+  // ---- transcribed kernels (round 2): outcome + the lnGamma values the routine queries
+  if (o == "k.ig") { double x = D(t[1]), a = D(t[2]), g = D(t[3]); return O([&] { return R::incompleteGamma(x, a, g); }); }
+  if (o == "k.qchisq") {
+    double p = D(t[1]), v = D(t[2]); double h = v / 2;
+    return O([&] { return R::qChisq(p, v); }) + " ; lg " + H(h) + " " + H(R::lnGamma(h));
+  }
+  if (o == "k.ibeta" || o == "k.qbeta") {
+    double x = D(t[1]), a = D(t[2]), b = D(t[3]); double s = a + b;
+    std::string r = (o == "k.ibeta") ? O([&] { return R::incompleteBeta(x, a, b); }) : O([&] { return R::qBeta(x, a, b); });
+    return r + " ; lg " + H(a) + " " + H(R::lnGamma(a)) + " ; lg " + H(b) + " " + H(R::lnGamma(b)) + " ; lg " + H(s) + " " + H(R::lnGamma(s));
+  }
+  // exact reflections by construction of the tail swaps: f(x, a, b) and f(1 - x, b, a)
+  if (o == "refl.ibeta") { double x = D(t[1]), a = D(t[2]), b = D(t[3]); double w = 1.0 - x;
+    return O([&] { return R::incompleteBeta(x, a, b); }) + " " + O([&] { return R::incompleteBeta(w, b, a); }); }
+  if (o == "refl.qbeta") { double x = D(t[1]), a = D(t[2]), b = D(t[3]); double w = 1.0 - x;
+    return O([&] { return R::qBeta(x, a, b); }) + " " + O([&] { return R::qBeta(w, b, a); }); }
   // ---- normal
   if (o == "pnorm") { double z = D(t[1]); return O([&] { return R::pNorm(z); }); }
   if (o == "qnorm") { double p = D(t[1]); return O([&] { return R::qNorm(p); }); }
